@@ -66,7 +66,9 @@ def run_pool(modname, units, tier, seed, nproc=None):
     if nproc <= 1 or len(jobs) <= 1:
         return [_worker(j) for j in jobs]
     ctx = mp.get_context('fork')
-    with ctx.Pool(nproc, maxtasksperchild=None) as pool:
+    import importlib
+    fresh = getattr(importlib.import_module(modname), 'FRESH_PROCESS_PER_UNIT', True)   # units never share library state
+    with ctx.Pool(nproc, maxtasksperchild=1 if fresh else None) as pool:
         return list(pool.imap_unordered(_worker, jobs, chunksize=1))
 
 
